@@ -212,6 +212,10 @@ func propC11(c *Ctx, r *Report) {
 	r.rule("C11/loopvar-alias", 1, "no address of a per-loop variable is retained across iterations in block processing")
 	ruleLoopVarAlias(c, r, "C11/loopvar-alias", c.RSync)
 
+	ruleEveryRecordGraded(c, r, e, "C11/every-record-graded")
+	// the graders see every record of the block: a failed download is not mistaken for an invalid record
+	r.rule("C11/inputs-complete", 2, "errors of the parallel entry fetch reach SyncBlock")
+	runErrflow(c, computeEffects(c), r, reachOfSelf(c, "node.multiFetch"), "C11/inputs-complete", false)
 	// previous winners
 	r.rule("C11/previous-winners", 1, "previous winners are read for the block being graded")
 	gr := c.fn("node.Pegnetd.Grade")
@@ -331,5 +335,87 @@ func stakerIdentity(c *Ctx, r *Report, rule string) {
 		} else {
 			r.okNT(rule, cons, c.ipos(gate), "the gated external id is read by the validator")
 		}
+	}
+}
+
+// ruleEveryRecordGraded: in Grade and GradeS every entry of the block that passes the enumerated gates (enough external
+// ids; for staking records: signed by a top-100 holder) is handed to the grader - on the CFG specialised to a
+// well-formed, admitted record no path round the entry loop avoids AddOPR / AddSPR. An extra skip (a dedupe map, an
+// early break) lets a valid record go unpaid.
+func ruleEveryRecordGraded(c *Ctx, r *Report, e *eraCtx, rule string) {
+	r.rule(rule, 2, "every admitted record of the block reaches the grader")
+	v20 := e.a.get("V20HeightActivation")
+	for _, spec := range []struct {
+		fn, add string
+		h       uint32
+	}{{"node.Pegnetd.Grade", "AddOPR", v20 - 10}, {"node.Pegnetd.GradeS", "AddSPR", v20 + 10}} {
+		f := c.fn(spec.fn)
+		sc := &Scenario{
+			Paths: map[string]AVal{"factom.EBlock.Height": hconst(spec.h)},
+			Lens:  map[string]AVal{"factom.Entry.ExtIDs": cInt(3)},
+			Calls: map[string]AVal{"IsIncludedTopPEGAddress": {K: ATuple, Tup: []AVal{cBool(true), nilVal}}, spec.add: nilVal,
+				"SelectPreviousWinners": {K: ATuple, Tup: []AVal{nonNil, nilVal}}, "NewGrader": {K: ATuple, Tup: []AVal{nonNil, nilVal}}},
+			MaxDepth: 1, AllErrorsNil: true}
+		s := newSCCP(c, sc)
+		st := s.run(f, nil, 0)
+		r.Scen++
+		if st == nil {
+			r.undecided(rule, fname(f), c.pos(f.Pos()), "function not analysable")
+			continue
+		}
+		adds := findCalls(f, "")
+		adds = nil
+		for _, ci := range callsOf(f) {
+			if shortCallee(ci.Common()) == spec.add && st.execB[ci.Block()] {
+				adds = append(adds, ci)
+			}
+		}
+		if len(adds) != 1 {
+			r.viol(rule, fname(f)+" -> "+spec.add, c.pos(f.Pos()), fmt.Sprintf("%d live %s call sites for an admitted record (want 1)", len(adds), spec.add))
+			continue
+		}
+		add := adds[0]
+		l := innermostLoop(f, add.Block())
+		if l == nil {
+			r.viol(rule, fname(f)+" -> "+spec.add, c.ipos(add), spec.add+" is not inside the loop over the block's entries")
+			continue
+		}
+		// executable path header -> header avoiding the block of the add call (or leaving the loop by break, other than through a return of an error)
+		skip := ""
+		seen := map[*ssa.BasicBlock]bool{}
+		var walk func(b *ssa.BasicBlock)
+		walk = func(b *ssa.BasicBlock) {
+			if skip != "" || seen[b] || b == add.Block() {
+				return
+			}
+			seen[b] = true
+			for _, sx := range b.Succs {
+				if !st.execE[[2]int{b.Index, sx.Index}] {
+					continue
+				}
+				if sx == l.header {
+					skip = fmt.Sprintf("an iteration can end at block %d without the call", b.Index)
+					return
+				}
+				if !l.blocks[sx] {
+					// leaving the loop from inside the body: a break (not the loop's own exit at the header, not an error return)
+					if b != l.header {
+						if _, isRet := sx.Instrs[len(sx.Instrs)-1].(*ssa.Return); !isRet || len(sx.Instrs) > 3 {
+							skip = fmt.Sprintf("the loop can be left from block %d before the remaining entries are seen", b.Index)
+							return
+						}
+					}
+					continue
+				}
+				walk(sx)
+			}
+		}
+		// start from the loop body entry (the header's in-loop successors)
+		for _, sx := range l.header.Succs {
+			if l.blocks[sx] && st.execE[[2]int{l.header.Index, sx.Index}] {
+				walk(sx)
+			}
+		}
+		r.check(skip == "", rule, fname(f)+": every admitted entry reaches "+spec.add, c.ipos(add), "no executable path round the entry loop avoids the call for a well-formed, admitted record", skip+": a record that passes the stated gates is not graded (and so cannot be paid)")
 	}
 }
